@@ -50,7 +50,7 @@ def corrupt(w, path, kind, n, atom, x):
     elif kind == 'numtype-bool':
         js['numtype'] = 'bool'
     elif kind == 'numtype-otheritemsize':
-        js['numtype'] = 'int64' if js['numtype'] != 'int64' else 'int16'
+        js['numtype'] = 'int64' if ITEMSIZE[js['numtype']] != 8 else 'int16'     # an item size that differs
     elif kind == 'byteorder-unknown':
         js['byteorder'] = 'middle'
     elif kind == 'byteorder-int':
@@ -272,7 +272,7 @@ def replay_refuse(cex, d):
                     key, v = {
                         'numtype-unknown': ('numtype', 'int24'), 'numtype-int': ('numtype', x),
                         'numtype-none': ('numtype', None), 'numtype-bool': ('numtype', 'bool'),
-                        'numtype-otheritemsize': ('numtype', 'int64' if js['numtype'] != 'int64' else 'int16'),
+                        'numtype-otheritemsize': ('numtype', 'int64' if ITEMSIZE[js['numtype']] != 8 else 'int16'),
                         'byteorder-unknown': ('byteorder', 'middle'), 'byteorder-int': ('byteorder', x),
                         'arrayorder-unknown': ('arrayorder', 'K'), 'arrayorder-int': ('arrayorder', x),
                         'version-bad': ('darrversion', 'not a version'),
